@@ -31,8 +31,19 @@ BIN = {'add': lambda a, x: a + x, 'radd': lambda a, x: x + a, 'sub': lambda a, x
 UN = {'pos': operator.pos, 'neg': operator.neg}
 
 
-def _base(n, nch, dtype):
+def _base(n, nch, dtype, mode='ids'):
     ids = np.arange(n * nch).reshape((n, nch))
+    if mode == 'extreme':
+        # values at which step-by-step evaluation in the sample dtype wraps around or rounds: two
+        # chained scalar operators are then NOT the same as one operator with the combined scalar
+        dt = np.dtype(dtype)
+        if dt.kind in 'iu':
+            info = np.iinfo(dt)
+            pool = [info.max, info.min, info.max - 1, info.min + 1, info.max // 2 + 1, info.min // 2 - 1 if info.min else 3,
+                    1, 0, info.max // 3, 7]
+        else:
+            pool = [0.1, -0.3, 1e-3, 123456.7, -0.0, 1 / 3, 2.5e6 + 0.1, 0.7, -1e-5, 5e-324 if dt.itemsize == 8 else 1e-38]
+        return np.array([pool[i % len(pool)] for i in range(n * nch)]).astype(dtype).reshape((n, nch))
     shift = 0 if dtype == 'uint8' else (n * nch) // 2
     return (ids - shift).astype(dtype)
 
@@ -48,7 +59,7 @@ def _apply(x, step):
 def _reader(case, d):
     from phylib.io.traces import get_ephys_reader
     parts, nch, dtype = case['parts'], case['nch'], case['dtype']
-    A = _base(sum(parts), nch, dtype)
+    A = _base(sum(parts), nch, dtype, case.get('base', 'ids'))
     b = case['backend']
     rd = None
     if b == 'flat':
@@ -188,6 +199,7 @@ def nontrivial(case):
 def tally(rep, case, impl_res, ans):
     rep.count('backend:' + case['backend'])
     rep.count('dtype:' + case['dtype'])
+    rep.count('base_values:' + case.get('base', 'ids'))
     for s in case['steps']:
         if s['k'] == 'derive':
             rep.count('op:' + s['op'])
@@ -256,8 +268,8 @@ def scalar_args(op, dtype, rng=None):
     if op in ('rtruediv', 'rfloordiv'):
         return [6, 1.5] + ([] if dtype == 'uint8' else [-7])
     if dtype == 'uint8':
-        return [3, 1, 2.5]
-    return [3, -2, 2.5, 0]
+        return [3, 1, 2.5, 0.1]
+    return [3, -2, 2.5, 0, 0.1, 0.2]
 
 
 def items_for(n, rng, k=3, cbin=False):
@@ -312,7 +324,8 @@ def gen(tier, rng):
                         it = items_for(n, rng, 1, backend == 'cbin')[(k + rdr) % 3]
                         steps.append({'k': 'eval', 'reader': rdr, 'item': it, 'kind': 'py'})
                 if ok_chain:
-                    yield dict(p=PID, backend=backend, dtype=dtype, parts=parts, nch=nch, steps=steps)
+                    yield dict(p=PID, backend=backend, dtype=dtype, parts=parts, nch=nch, steps=steps,
+                               base=['ids', 'extreme'][(k // 2) % 2])
     # random derivation trees
     for _ in range(3000 if q else 40000):
         dtype = rng.pick(DTYPES)
@@ -348,4 +361,5 @@ def gen(tier, rng):
                     ev['cols'] = rng.pick(sel)
                 steps.append(ev)
         if any(s['k'] == 'eval' for s in steps):
-            yield dict(p=PID, backend=backend, dtype=dtype, parts=parts, nch=nch, steps=steps)
+            yield dict(p=PID, backend=backend, dtype=dtype, parts=parts, nch=nch, steps=steps,
+                       base=rng.pick(['ids', 'extreme', 'extreme']))
